@@ -262,7 +262,7 @@ func init() {
 		Jobs: c02Jobs,
 		Budget: func(tier string) time.Duration {
 			if tier == "quick" {
-				return 75 * time.Second
+				return 120 * time.Second
 			}
 			return 14 * time.Minute
 		},
